@@ -132,7 +132,10 @@ fn op_sd(kind: &str, name: String) {
     }
 }
 
-type Worker = (std::sync::mpsc::Sender<String>, std::sync::mpsc::Receiver<String>);
+// a persistent worker thread: jobs carry their own reply channel, so calls made to DIFFERENT workers from different threads
+// run concurrently (the table of workers is locked only to find or create the worker)
+type Job = (String, std::sync::mpsc::Sender<String>);
+type Worker = std::sync::mpsc::Sender<Job>;
 
 fn workers() -> &'static std::sync::Mutex<std::collections::HashMap<String, Worker>> {
     static W: std::sync::OnceLock<std::sync::Mutex<std::collections::HashMap<String, Worker>>> = std::sync::OnceLock::new();
@@ -141,22 +144,24 @@ fn workers() -> &'static std::sync::Mutex<std::collections::HashMap<String, Work
 
 // `@t/OP`: run OP on the persistent worker thread named t (created on first use) and wait for it
 fn run_on_worker(t: &str, op: &str) -> String {
-    let mut ws = workers().lock().unwrap();
-    if !ws.contains_key(t) {
-        let (tx_op, rx_op) = std::sync::mpsc::channel::<String>();
-        let (tx_res, rx_res) = std::sync::mpsc::channel::<String>();
-        std::thread::Builder::new().stack_size(2 * 1024 * 1024).spawn(move || {
-            hist::INLINE.with(|f| f.set(true));
-            while let Ok(op) = rx_op.recv() {
-                let r = guarded(|| run_op(&op));
-                if tx_res.send(r).is_err() { break; }
-            }
-        }).unwrap();
-        ws.insert(t.to_string(), (tx_op, rx_res));
-    }
-    let (tx, rx) = ws.get(t).unwrap();
-    if tx.send(op.to_string()).is_err() { return "PANIC".to_string(); }
-    match rx.recv_timeout(std::time::Duration::from_millis(hist::WATCHDOG_MS)) {
+    let tx = {
+        let mut ws = workers().lock().unwrap();
+        if !ws.contains_key(t) {
+            let (tx_op, rx_op) = std::sync::mpsc::channel::<Job>();
+            std::thread::Builder::new().stack_size(2 * 1024 * 1024).spawn(move || {
+                hist::INLINE.with(|f| f.set(true));
+                while let Ok((op, reply)) = rx_op.recv() {
+                    let r = guarded(|| run_op(&op));
+                    let _ = reply.send(r);
+                }
+            }).unwrap();
+            ws.insert(t.to_string(), tx_op);
+        }
+        ws.get(t).unwrap().clone()
+    };
+    let (tx_res, rx_res) = std::sync::mpsc::channel::<String>();
+    if tx.send((op.to_string(), tx_res)).is_err() { return "PANIC".to_string(); }
+    match rx_res.recv_timeout(std::time::Duration::from_millis(hist::WATCHDOG_MS)) {
         Ok(r) => r,
         Err(_) => { DEAD.store(true, std::sync::atomic::Ordering::SeqCst); "DEADLOCK".to_string() }
     }
